@@ -415,6 +415,10 @@ func (cv CertValidity) toTimeStruct() (config.CertificateValidity, error) {
 func initCertificate(c CertConfig) (*config.CertificateContent, error) {
 	out := config.CertificateContent{}
 
+	//X.509 serial numbers are non-negative (0 means "draw a random one")
+	if c.SerialNumber < 0 {
+		return nil, fmt.Errorf("config-v1: serialNumber must not be negative: %d", c.SerialNumber)
+	}
 	out.SerialNumber = c.SerialNumber
 	if len(c.IssuerUniqueId) > 0 {
 		b, err := readRawString(c.IssuerUniqueId)
